@@ -192,12 +192,19 @@ META = {
                    "event with pitch+12 and the note's own channel and velocity followed by the INT and NOTE notifications; "
                    "SequencerObserver.notify calls exactly the callback of each of the 14 message types with the parameters sent "
                    "and ignores unknown types; attach twice / detach and 'every listener, in order, same message' on the real "
-                   "attach/detach/notify_listeners bodies (lemma). NOT proved: play_NoteContainer/Bar/Bars/Track/Tracks/"
-                   "Composition (balanced, ordered, timed streams; parallel scheduler on floats) - bounded driver.",
+                   "attach/detach/notify_listeners bodies (lemma); play_/stop_NoteContainer (rest, 0..3 notes) emit the container "
+                   "notification and then every note's events in order; play_Bar (bars of 0..3 entries: rest / container / "
+                   "container with a tempo; ANY positive values and tempi, float-as-real) announces the bar, then per entry "
+                   "plays the content at velocity 100, sleeps 60/bpm * 4/value seconds at the tempo in force after the entry's "
+                   "own tempo change, reports the sleep and stops the content, and returns the final tempo; play_Track (0..2 "
+                   "bars of 0..2 entries) plays every bar in order, each at the tempo the bar before ended with (event view over "
+                   "the proved players). NOT proved: play_Bars/Tracks/Composition (the parallel scheduler on floats; see the "
+                   "known findings) - bounded driver.",
         level_note=TB + " Ghost trace: the five subclass hooks, notify_listeners (in the per-call contracts) and the observer "
                         "callbacks are abstract and modelled as appending one record.",
         explanation="Deductive: control_change, modulation, main_volume, pan, set_instrument, play_Note, stop_Note, "
-                    "SequencerObserver.notify, lemma c18_every_listener_in_order. Bounded: bounded/drivers/C18.py.",
+                    "play_/stop_NoteContainer, play_Bar, play_Track, Track.add_notes, SequencerObserver.notify, lemma "
+                    "c18_every_listener_in_order. Bounded: bounded/drivers/C18.py.",
     ),
     "C19": dict(
         claimed=True, level="other",
